@@ -262,8 +262,17 @@ def gen_medium(rng, tier, ops_fn, prefix="md", acc=False, basins=False):
     18x16 rasters (hundreds of nodes, dozens of basins) - counters, labels and level arrays must not
     be narrower than the sizes they count"""
     out = []
-    for k in range(2 if tier == "quick" else 20):
-        if k % 2 == 0:
+    for k in range(3 if tier == "quick" else 21):
+        if k % 3 == 2:
+            # thin raster looped along an axis of more than 128 nodes (wrap-around offsets of +-129 and more)
+            if rng.random() < 0.5:
+                g = gen.Grid("raster", rows=rng.choice([130, 140]), cols=2, dy=1.0, dx=1.0, conn=rng.choice(gen.CONNS),
+                             borders=["v", "c", "l", "l"], cache=bool(k % 2), ov=[])
+            else:
+                g = gen.Grid("raster", rows=2, cols=rng.choice([131, 150]), dy=1.0, dx=2.0, conn=rng.choice(gen.CONNS),
+                             borders=["l", "l", "v", "c"], cache=bool(k % 2), ov=[])
+            z = gen.elevation(rng, g, rng.choice(["ints", "random"]))
+        elif k % 3 == 0:
             n = rng.choice([260, 300])
             g = gen.Grid("profile", size=n, dx=1.0, borders=[rng.choice("vc"), "v"], cache=bool(k % 4), ov=[])
             # a long monotone ramp with a few pits, or a saw
@@ -577,6 +586,12 @@ def gen_grids(rng, tier):
                 lines.append("iter %s %s" % (w, d))
         lines.append("graph single")
         out.append(("g%d" % k, lines))
+    # thin rasters looped along an axis of more than 128 nodes: the wrap-around offsets no longer fit
+    # in 8 bits
+    for k, (rows, cols, bs) in enumerate([(130, 2, ["v", "c", "l", "l"]), (2, 131, ["l", "l", "v", "c"]), (129, 3, ["l", "l", "l", "l"])]):
+        g = gen.Grid("raster", rows=rows, cols=cols, dy=1.0, dx=2.0, conn=gen.CONNS[k % 3], borders=bs, cache=bool(k % 2), ov=[])
+        lines = [g.line(), "grid_common"] + grid_queries(rng, g, full=False)[:400] + ["graph single"]
+        out.append(("gthin%d" % k, lines))
     return out
 
 
@@ -662,7 +677,10 @@ def gen_c08(rng, tier):
     for pid in ("C01", "C03", "C05", "C07", "C19"):
         sc = PROPS[pid]["gen"](rng, tier)
         rng.shuffle(sc)
-        for sid, lines in sc[: max(20, int(len(sc) * frac))]:
+        # the size-boundary scenarios (thin looped rasters, grids of more than 256 nodes) always run
+        special = [s for s in sc if s[0].startswith(("gthin", "md"))]
+        rest = [s for s in sc if not s[0].startswith(("gthin", "md"))]
+        for sid, lines in special + rest[: max(20, int(len(rest) * frac))]:
             out.append((pid + "_" + sid, lines))
     for extra in EXTRA_C08_GENS:
         out += extra(rng, tier)
